@@ -388,6 +388,10 @@ class SourceEval:
             return self.operand(nd['a'])
         if k == 'wrapfail':
             return self.operand(nd['fallback'])
+        if k == 'wrapok':
+            if not self.analysis:
+                raise ValueError('wrapped helper: no value semantics')
+            return r.out(r.unit_sig('wrapped-helper', 2, 0, 1, [('node', i)]), 0)
         if k == 'ugen':
             cls = nd['cls']
             ent = UGENS[cls]
@@ -773,7 +777,21 @@ class Gen:
             return _Info('list', max(e.hi for e in einfo),
                          max(e.lo for e in einfo), False, depth,
                          elems=len(einfo), einfo=einfo)
-        if k in ('un', 'bin', 'madd', 'ugen') and any(
+        if k in ('un', 'bin', 'madd', 'sumn') and any(
+                x.einfo is not None for x in ops) \
+                and all(x.kind == 'val' or x.einfo is not None for x in ops):
+            # flat lists whose values are not known to the analysis (c02
+            # operands without value semantics): rates per channel by the max
+            # rule, never considered rate-stable
+            n = max(len(x.einfo) for x in ops if x.einfo is not None)
+            einfo = []
+            for j in range(n):
+                es = [x if x.kind == 'val' else x.einfo[j % len(x.einfo)]
+                      for x in ops]
+                einfo.append(_Info('val', max(e.hi for e in es), 0, False, depth))
+            return _Info('list', max(e.hi for e in einfo), 0, False, depth,
+                         elems=n, einfo=einfo)
+        if k in ('un', 'bin', 'madd', 'sumn', 'ugen') and any(
                 x.kind in ('list', 'multi') for x in ops) \
                 and not UGENS.get(nd.get('cls'), {}).get('wf'):
             # multichannel expansion (c02): a list of units of one rate
